@@ -86,15 +86,26 @@ def strip_comments(src):
     return "".join(out)
 
 
-def grep_forbidden():
-    hits = []
-    for root, _, files in os.walk(LEAN):
-        if ".lake" in root:
+def import_closure(modules):
+    """Project files (transitively) imported by the given modules."""
+    seen, todo = set(), list(modules)
+    while todo:
+        m = todo.pop()
+        if m in seen or not m.startswith("QclibModel"):
             continue
-        for f in files:
-            if not f.endswith(".lean"):
-                continue
-            p = os.path.join(root, f)
+        p = os.path.join(LEAN, m.replace(".", "/") + ".lean")
+        if not os.path.exists(p):
+            continue
+        seen.add(m)
+        for im in re.findall(r"^import\s+(\S+)", open(p).read(), re.M):
+            todo.append(im)
+    return sorted(os.path.join(LEAN, m.replace(".", "/") + ".lean") for m in seen)
+
+
+def grep_forbidden(modules):
+    hits = []
+    for p in import_closure(modules):
+        if True:
             code = strip_comments(open(p).read())
             for ln, line in enumerate(code.split("\n"), 1):
                 if FORBIDDEN.search(line):
@@ -283,7 +294,7 @@ def run_check(mod, pid, tier, seed, replay=None):
     discharged = 0
     ax_report = {}
     if build_ok:
-        hits = grep_forbidden()
+        hits = grep_forbidden(targets)
         if hits:
             broken.append({"obligation": "forbidden-constructs", "detail": "\n".join(hits[:20])})
         ax, text, arc = audit_axioms(targets, theorems, pid)
